@@ -132,3 +132,88 @@ func exitsWithout(body *ast.BlockStmt, start func(ast.Node) bool, event func(ast
 	}
 	return bad
 }
+
+// unguardedNodes runs a forward may-analysis of a lock's state over the CFG of body and
+// returns the `watch` nodes that can be reached while the lock is not held. Deferred
+// unlocks are ignored (they run at return). startHeld gives the state at entry.
+func unguardedNodes(body *ast.BlockStmt, isLock, isUnlock, watch func(ast.Node) bool, startHeld bool) []ast.Node {
+	const held, free = 1, 2
+	g := cfg.New(body, func(*ast.CallExpr) bool { return true })
+	in := map[*cfg.Block]int{}
+	if startHeld {
+		in[g.Blocks[0]] = held
+	} else {
+		in[g.Blocks[0]] = free
+	}
+	var bad []ast.Node
+	seenBad := map[ast.Node]bool{}
+	out := map[*cfg.Block]int{}
+	work := []*cfg.Block{g.Blocks[0]}
+	for len(work) > 0 {
+		b := work[len(work)-1]
+		work = work[:len(work)-1]
+		s := in[b]
+		for _, n := range b.Nodes {
+			if _, isDefer := n.(*ast.DeferStmt); isDefer {
+				continue
+			}
+			// events inside the node in source order
+			type e struct {
+				pos  token.Pos
+				kind int
+				node ast.Node
+			}
+			var es []e
+			ast.Inspect(n, func(m ast.Node) bool {
+				if m == nil {
+					return false
+				}
+				if _, ok := m.(*ast.FuncLit); ok {
+					return false
+				}
+				switch {
+				case isLock(m):
+					es = append(es, e{m.Pos(), 0, m})
+				case isUnlock(m):
+					es = append(es, e{m.Pos(), 1, m})
+				case watch(m):
+					es = append(es, e{m.Pos(), 2, m})
+				}
+				return true
+			})
+			for i := 0; i < len(es); i++ {
+				for j := i + 1; j < len(es); j++ {
+					if es[j].pos < es[i].pos {
+						es[i], es[j] = es[j], es[i]
+					}
+				}
+			}
+			for _, x := range es {
+				switch x.kind {
+				case 0:
+					s = held
+				case 1:
+					s = free
+				case 2:
+					if s&free != 0 && !seenBad[x.node] {
+						seenBad[x.node] = true
+						bad = append(bad, x.node)
+					}
+				}
+			}
+		}
+		if prev, ok := out[b]; ok && prev == s {
+			continue
+		}
+		out[b] = s
+		for _, su := range b.Succs {
+			if in[su]|s != in[su] {
+				in[su] |= s
+				work = append(work, su)
+			} else if _, done := out[su]; !done {
+				work = append(work, su)
+			}
+		}
+	}
+	return bad
+}
